@@ -7,8 +7,8 @@ Require Import Raft.Quorum Raft.QuorumProofs Raft.RaftModel Raft.RaftSys Raft.Ra
 Import ListNotations.
 
 Section Frame.
-  Variables c0 c1 : list nat.
-  Hypothesis Hcfg : c0 <> [] \/ c1 <> [].
+  Variable F : list (list nat * list nat).
+  Hypothesis HF : inter_family F.
 
   (* ---------------------------------------------------------------- messages *)
   Definition msg_ok (s : mstate) (m : msg) : Prop :=
@@ -19,35 +19,35 @@ Section Frame.
          = firstn (m_index m + length (m_ents m)) (LL s (m_term m)) /\
        m_index m + length (m_ents m) <= length (LL s (m_term m)) /\
        m_logterm m = term_at (LL s (m_term m)) (m_index m) /\
-       CP c0 c1 s (m_term m) (m_commit m)) /\
+       CP F s (m_term m) (m_commit m)) /\
     (m_type m = MsgVote ->
        n_role (nodes s (m_from m)) = Candidate -> n_term (nodes s (m_from m)) = m_term m ->
        m_index m = length (n_log (nodes s (m_from m))) /\ m_logterm m = last_term (n_log (nodes s (m_from m)))) /\
     (m_type m = MsgAppResp -> m_reject m = false -> m_index m <= ga s (m_from m) (m_term m)) /\
     (m_type m = MsgHeartbeat ->
-       m_commit m <= ga s (m_to m) (m_term m) /\ CP c0 c1 s (m_term m) (m_commit m)) /\
+       m_commit m <= ga s (m_to m) (m_term m) /\ CP F s (m_term m) (m_commit m)) /\
     (m_type m = MsgVote -> m_term m <= n_term (nodes s (m_from m))) /\
     (m_type m = MsgSnap ->
        LL s (m_term m) <> [] /\
        m_ents m = firstn (m_index m) (LL s (m_term m)) /\
        m_index m <= length (LL s (m_term m)) /\
        m_logterm m = term_at (LL s (m_term m)) (m_index m) /\
-       CP c0 c1 s (m_term m) (m_index m)).
+       CP F s (m_term m) (m_index m)).
 
-  Lemma inv_msg_ok : forall s m, Inv c0 c1 s -> In m (msgs s) -> msg_ok s m.
+  Lemma inv_msg_ok : forall s m, Inv F s -> In m (msgs s) -> msg_ok s m.
   Proof.
     intros s m I Hm. unfold msg_ok. split; [|split; [|split; [|split; [|split; [|split]]]]].
-    - intros Ht Hr. apply (hA4 _ _ _ I); assumption.
-    - intros Ht. apply (hW9 _ _ _ I m Hm Ht).
-    - intros Ht Hr Htm. apply (hW10 _ _ _ I m Hm Ht Hr Htm).
-    - intros Ht Hr. apply (hK4 _ _ _ I); assumption.
-    - intros Ht. apply (hK10 _ _ _ I m Hm Ht).
-    - intros Ht. apply (hW12 _ _ _ I m Hm Ht).
-    - intros Ht. apply (hW13 _ _ _ I m Hm Ht).
+    - intros Ht Hr. apply (hA4 _ _ I); assumption.
+    - intros Ht. apply (hW9 _ _ I m Hm Ht).
+    - intros Ht Hr Htm. apply (hW10 _ _ I m Hm Ht Hr Htm).
+    - intros Ht Hr. apply (hK4 _ _ I); assumption.
+    - intros Ht. apply (hK10 _ _ I m Hm Ht).
+    - intros Ht. apply (hW12 _ _ I m Hm Ht).
+    - intros Ht. apply (hW13 _ _ I m Hm Ht).
   Qed.
 
   Lemma inv_add_msgs : forall s out,
-    Inv c0 c1 s -> (forall m, In m out -> msg_ok s m) -> Inv c0 c1 (add_msgs s out).
+    Inv F s -> (forall m, In m out -> msg_ok s m) -> Inv F (add_msgs s out).
   Proof.
     intros s out I Hout.
     assert (Hall : forall m, In m (msgs s ++ out) -> msg_ok s m).
@@ -82,7 +82,7 @@ Section Frame.
   Qed.
 
   Lemma inv_node_gv : forall s id n' gv',
-    Inv c0 c1 s ->
+    Inv F s ->
     let n := nodes s id in
     n_term n <= n_term n' ->
     n_log n' = n_log n ->
@@ -99,14 +99,14 @@ Section Frame.
     (n_commit n' = n_commit n \/
      (n_commit n' <= length (n_log n') /\
       (n_commit n' = 0 \/
-       exists t0 k0, t0 <= n_term n' /\ committed_at c0 c1 s t0 k0 /\ n_commit n' <= k0 /\
+       exists t0 k0, t0 <= n_term n' /\ committed_at F s t0 k0 /\ n_commit n' <= k0 /\
          firstn (n_commit n') (n_log n') = firstn (n_commit n') (LL s t0)))) ->
     (n_role n' = Candidate -> forall x t k, gv' x (n_term n') = Some id -> t < n_term n' ->
-       valid s t k -> k <= ga s x t -> has s (n_log n') t k \/ neverq c0 c1 s t k) ->
+       valid s t k -> k <= ga s x t -> has s (n_log n') t k \/ neverq F s t k) ->
     (forall c t k, c <> id -> n_role (nodes s c) = Candidate -> gv' id (n_term (nodes s c)) = Some c ->
        t < n_term (nodes s c) -> valid s t k -> k <= ga s id t ->
-       has s (n_log (nodes s c)) t k \/ neverq c0 c1 s t k) ->
-    Inv c0 c1 (set_node_gv s id n' gv').
+       has s (n_log (nodes s c)) t k \/ neverq F s t k) ->
+    Inv F (set_node_gv s id n' gv').
   Proof.
     intros s id n' gv' I n Hterm Hlog Hrole Hmono Hother HA1 HA2 HA3 Hvotes Hmatch Hcommit HK8a HK8b.
     set (s' := set_node_gv s id n' gv').
@@ -114,136 +114,136 @@ Section Frame.
     assert (Hnd : forall x, x <> id -> nodes s' x = nodes s x).
     { intros x Hx. unfold s'. cbn [set_node_gv nodes]. apply upd_other. exact Hx. }
     assert (Hid : nodes s' id = n') by (unfold s'; cbn [set_node_gv nodes]; apply upd_same).
-    assert (Hneverq : forall t k, neverq c0 c1 s t k -> neverq c0 c1 s' t k) by (intros; eapply ext_neverq; eassumption).
+    assert (Hneverq : forall t k, neverq F s t k -> neverq F s' t k) by (intros; eapply ext_neverq; eassumption).
     assert (Hterm' : forall x, n_term (nodes s x) <= n_term (nodes s' x)) by (apply (e_term _ _ E)).
     constructor.
     - (* iA1 *) intros x t Ht. unfold nd in Ht. change (gv' x t = None).
       destruct (Nat.eq_dec x id) as [->|Hx].
       + rewrite Hid in Ht. apply HA1. exact Ht.
-      + rewrite Hnd in Ht by exact Hx. rewrite Hother by exact Hx. apply (hA1 _ _ _ I). exact Ht.
+      + rewrite Hnd in Ht by exact Hx. rewrite Hother by exact Hx. apply (hA1 _ _ I). exact Ht.
     - (* iA2 *) intros x. unfold nd. change (gv' x (n_term (nodes s' x)) = n_vote (nodes s' x)).
       destruct (Nat.eq_dec x id) as [->|Hx]; [rewrite Hid; exact HA2|].
-      rewrite Hnd by exact Hx. rewrite Hother by exact Hx. apply (hA2 _ _ _ I).
+      rewrite Hnd by exact Hx. rewrite Hother by exact Hx. apply (hA2 _ _ I).
     - (* iA3 *) intros x t c Hg. unfold nd. change (gv' x t = Some c) in Hg.
       assert (Hc : gv s x t = Some c \/ (c <> id /\ t <= n_term (nodes s c)) \/ (c = id /\ t <= n_term n')).
       { destruct (Nat.eq_dec x id) as [->|Hx]; [apply HA3; exact Hg|left; rewrite <- Hother by exact Hx; exact Hg]. }
       destruct Hc as [Hc|[[Hc1 Hc2]|[Hc1 Hc2]]].
-      + pose proof (hA3 _ _ _ I x t c Hc) as H. unfold nd in H. pose proof (Hterm' c). lia.
+      + pose proof (hA3 _ _ I x t c Hc) as H. unfold nd in H. pose proof (Hterm' c). lia.
       + pose proof (Hterm' c). lia.
       + subst c. rewrite Hid. exact Hc2.
     - (* iA4 *) intros m Hm Ht Hr. change (gv' (m_from m) (m_term m) = Some (m_to m)).
-      apply Hmono. apply (hA4 _ _ _ I m Hm Ht Hr).
+      apply Hmono. apply (hA4 _ _ I m Hm Ht Hr).
     - (* iA5 *) intros c x Hr Hv. unfold nd in *. change (gv' x (n_term (nodes s' c)) = Some c).
       destruct (Nat.eq_dec c id) as [->|Hc].
       + rewrite Hid in *. apply Hvotes; assumption.
-      + rewrite Hnd in * by exact Hc. apply Hmono. apply (hA5 _ _ _ I); assumption.
+      + rewrite Hnd in * by exact Hc. apply Hmono. apply (hA5 _ _ I); assumption.
     - (* iA6a *) intros t l Hl. change (lof s t = Some l) in Hl.
-      eapply Qr_mono; [|exact (hA6a _ _ _ I t l Hl)].
+      eapply Qr_mono; [|exact (hA6a _ _ I t l Hl)].
       intros x Hx. unfold votedp in *. apply opt_nat_eqb_eq in Hx. apply opt_nat_eqb_eq.
       change (gv' x t = Some l). apply Hmono. exact Hx.
     - (* iA6b *) intros l Hr. unfold nd in *. change (lof s (n_term (nodes s' l)) = Some l).
       destruct (Nat.eq_dec l id) as [->|Hl].
       + rewrite Hid in *. destruct Hrole as [Hf|[[Hr' Ht']|[Hr' _]]]; [congruence| |congruence].
-        rewrite Ht'. apply (hA6b _ _ _ I). unfold nd. fold n. congruence.
-      + rewrite Hnd in * by exact Hl. apply (hA6b _ _ _ I). exact Hr.
+        rewrite Ht'. apply (hA6b _ _ I). unfold nd. fold n. congruence.
+      + rewrite Hnd in * by exact Hl. apply (hA6b _ _ I). exact Hr.
     - (* iA7 *) intros t l Hlof Ht. unfold nd in *. change (lof s t = Some l) in Hlof.
       destruct (Nat.eq_dec l id) as [->|Hl].
       + rewrite Hid in *. destruct Hrole as [Hf|[[Hr' Ht']|[Hr' Ht']]]; [congruence| |].
-        * rewrite Hr'. apply (hA7 _ _ _ I t id Hlof). unfold nd. fold n. lia.
+        * rewrite Hr'. apply (hA7 _ _ I t id Hlof). unfold nd. fold n. lia.
         * (* a fresh candidate in a term somebody already won: impossible *)
-          exfalso. pose proof (hA6a _ _ _ I t id Hlof) as Hq.
-          destruct (Qr_inter c0 c1 Hcfg _ _ Hq Hq) as (v & Hv & _).
+          exfalso. pose proof (hA6a _ _ I t id Hlof) as Hq.
+          destruct (Qr_inter F HF _ _ Hq Hq) as (v & Hv & _).
           unfold votedp in Hv. apply opt_nat_eqb_eq in Hv.
-          pose proof (hA3 _ _ _ I v t id Hv) as H. unfold nd in H. fold n in H. lia.
-      + rewrite Hnd in * by exact Hl. apply (hA7 _ _ _ I t l Hlof Ht).
+          pose proof (hA3 _ _ I v t id Hv) as H. unfold nd in H. fold n in H. lia.
+      + rewrite Hnd in * by exact Hl. apply (hA7 _ _ I t l Hlof Ht).
     - (* iA8 *) intros x Hr. unfold nd in *.
       destruct (Nat.eq_dec x id) as [->|Hx].
       + rewrite Hid in *. destruct Hrole as [Hf|[[Hr' Ht']|[Hr' Ht']]]; [congruence| |lia].
-        rewrite Ht'. apply (hA8 _ _ _ I id). unfold nd. fold n. congruence.
-      + rewrite Hnd in * by exact Hx. apply (hA8 _ _ _ I x Hr).
+        rewrite Ht'. apply (hA8 _ _ I id). unfold nd. fold n. congruence.
+      + rewrite Hnd in * by exact Hx. apply (hA8 _ _ I x Hr).
     - (* iW1 *) intros x. unfold nd. change (wf (LL s) (n_log (nodes s' x))).
-      destruct (Nat.eq_dec x id) as [->|Hx]; [rewrite Hid, Hlog|rewrite Hnd by exact Hx]; apply (hW1 _ _ _ I).
-    - exact (hW2 _ _ _ I).
-    - exact (hW3 _ _ _ I).
+      destruct (Nat.eq_dec x id) as [->|Hx]; [rewrite Hid, Hlog|rewrite Hnd by exact Hx]; apply (hW1 _ _ I).
+    - exact (hW2 _ _ I).
+    - exact (hW3 _ _ I).
     - (* iW4 *) intros x e He. unfold nd in *.
       destruct (Nat.eq_dec x id) as [->|Hx].
-      + rewrite Hid in *. rewrite Hlog in He. pose proof (hW4 _ _ _ I id e He) as H. unfold nd in H. fold n in H. lia.
-      + rewrite Hnd in * by exact Hx. apply (hW4 _ _ _ I x e He).
+      + rewrite Hid in *. rewrite Hlog in He. pose proof (hW4 _ _ I id e He) as H. unfold nd in H. fold n in H. lia.
+      + rewrite Hnd in * by exact Hx. apply (hW4 _ _ I x e He).
     - (* iW5 *) intros x Hr. unfold nd in *. change (LL s (n_term (nodes s' x)) = n_log (nodes s' x)).
       destruct (Nat.eq_dec x id) as [->|Hx].
       + rewrite Hid in *. destruct Hrole as [Hf|[[Hr' Ht']|[Hr' _]]]; [congruence| |congruence].
-        rewrite Ht', Hlog. apply (hW5 _ _ _ I id). unfold nd. fold n. congruence.
-      + rewrite Hnd in * by exact Hx. apply (hW5 _ _ _ I x Hr).
-    - exact (hW7 _ _ _ I).
-    - exact (hW8 _ _ _ I).
-    - exact (hW9 _ _ _ I).
+        rewrite Ht', Hlog. apply (hW5 _ _ I id). unfold nd. fold n. congruence.
+      + rewrite Hnd in * by exact Hx. apply (hW5 _ _ I x Hr).
+    - exact (hW7 _ _ I).
+    - exact (hW8 _ _ I).
+    - exact (hW9 _ _ I).
     - (* iW10 *) intros m Hm Ht Hr Htm. unfold nd in *. change (In m (msgs s)) in Hm.
       destruct (Nat.eq_dec (m_from m) id) as [Hx|Hx].
       + rewrite Hx in *. rewrite Hid in *.
-        pose proof (hW12 _ _ _ I m Hm Ht) as H12. unfold nd in H12. rewrite Hx in H12. fold n in H12.
+        pose proof (hW12 _ _ I m Hm Ht) as H12. unfold nd in H12. rewrite Hx in H12. fold n in H12.
         destruct Hrole as [Hf|[[Hr' Ht']|[Hr' Ht']]]; [congruence| |lia].
-        rewrite Hlog. pose proof (hW10 _ _ _ I m Hm Ht) as H. unfold nd in H. rewrite Hx in H. fold n in H.
+        rewrite Hlog. pose proof (hW10 _ _ I m Hm Ht) as H. unfold nd in H. rewrite Hx in H. fold n in H.
         apply H; congruence.
-      + rewrite Hnd in * by exact Hx. apply (hW10 _ _ _ I m Hm Ht Hr Htm).
+      + rewrite Hnd in * by exact Hx. apply (hW10 _ _ I m Hm Ht Hr Htm).
     - (* iW11 *) intros x Hr e He. unfold nd in *.
       destruct (Nat.eq_dec x id) as [->|Hx].
       + rewrite Hid in *. rewrite Hlog in He. destruct Hrole as [Hf|[[Hr' Ht']|[Hr' Ht']]]; [congruence| |].
-        * rewrite Ht'. apply (hW11 _ _ _ I id); [unfold nd; fold n; congruence|exact He].
-        * pose proof (hW4 _ _ _ I id e He) as H. unfold nd in H. fold n in H. lia.
-      + rewrite Hnd in * by exact Hx. apply (hW11 _ _ _ I x Hr e He).
+        * rewrite Ht'. apply (hW11 _ _ I id); [unfold nd; fold n; congruence|exact He].
+        * pose proof (hW4 _ _ I id e He) as H. unfold nd in H. fold n in H. lia.
+      + rewrite Hnd in * by exact Hx. apply (hW11 _ _ I x Hr e He).
     - (* iW12 *) intros m Hm Ht. unfold nd. change (In m (msgs s)) in Hm.
-      pose proof (hW12 _ _ _ I m Hm Ht) as H. unfold nd in H. pose proof (Hterm' (m_from m)). lia.
-    - exact (hW13 _ _ _ I).
-    - exact (hK1 _ _ _ I).
+      pose proof (hW12 _ _ I m Hm Ht) as H. unfold nd in H. pose proof (Hterm' (m_from m)). lia.
+    - exact (hW13 _ _ I).
+    - exact (hK1 _ _ I).
     - (* iK2 *) intros x t Hg. unfold nd. change (0 < ga s x t) in Hg.
-      pose proof (hK2 _ _ _ I x t Hg) as H. unfold nd in H. pose proof (Hterm' x). lia.
+      pose proof (hK2 _ _ I x t Hg) as H. unfold nd in H. pose proof (Hterm' x). lia.
     - (* iK3 *) intros x. unfold nd.
       change (ga s x (n_term (nodes s' x)) <= length (n_log (nodes s' x)) /\
               firstn (ga s x (n_term (nodes s' x))) (n_log (nodes s' x))
               = firstn (ga s x (n_term (nodes s' x))) (LL s (n_term (nodes s' x)))).
-      destruct (Nat.eq_dec x id) as [->|Hx]; [rewrite Hid|rewrite Hnd by exact Hx; apply (hK3 _ _ _ I)].
+      destruct (Nat.eq_dec x id) as [->|Hx]; [rewrite Hid|rewrite Hnd by exact Hx; apply (hK3 _ _ I)].
       destruct (Nat.eq_dec (n_term n') (n_term n)) as [Et|Et].
-      + rewrite Et, Hlog. apply (hK3 _ _ _ I id).
+      + rewrite Et, Hlog. apply (hK3 _ _ I id).
       + assert (Hz : ga s id (n_term n') = 0).
         { destruct (ga s id (n_term n')) eqn:Eg; [reflexivity|].
-          pose proof (hK2 _ _ _ I id (n_term n') ltac:(lia)) as H. unfold nd in H. fold n in H. lia. }
+          pose proof (hK2 _ _ I id (n_term n') ltac:(lia)) as H. unfold nd in H. fold n in H. lia. }
         rewrite Hz. split; [lia|reflexivity].
-    - exact (hK4 _ _ _ I).
+    - exact (hK4 _ _ I).
     - (* iK5 *) intros l x Hr. unfold nd in *. change (n_match (nodes s' l) x <= ga s x (n_term (nodes s' l))).
       destruct (Nat.eq_dec l id) as [->|Hl].
       + rewrite Hid in *. apply Hmatch. exact Hr.
-      + rewrite Hnd in * by exact Hl. apply (hK5 _ _ _ I l x Hr).
+      + rewrite Hnd in * by exact Hl. apply (hK5 _ _ I l x Hr).
     - (* iK6 *) intros x t k Hv Hk. change (valid s t k) in Hv. change (k <= ga s x t) in Hk.
       assert (Hl : n_log (nd s' x) = n_log (nd s x)).
       { unfold nd. destruct (Nat.eq_dec x id) as [->|Hx]; [rewrite Hid; exact Hlog|rewrite Hnd by exact Hx; reflexivity]. }
-      rewrite Hl. destruct (hK6 _ _ _ I x t k Hv Hk) as [H|H]; [left; exact H|right; apply Hneverq; exact H].
-    - (* iK7 *) intros t t3 k Hlt Hne Hv. destruct (hK7 _ _ _ I t t3 k Hlt Hne Hv) as [H|H]; [left; exact H|right; apply Hneverq; exact H].
+      rewrite Hl. destruct (hK6 _ _ I x t k Hv Hk) as [H|H]; [left; exact H|right; apply Hneverq; exact H].
+    - (* iK7 *) intros t t3 k Hlt Hne Hv. destruct (hK7 _ _ I t t3 k Hlt Hne Hv) as [H|H]; [left; exact H|right; apply Hneverq; exact H].
     - (* iK8 *) intros c x t k Hr Hg Ht Hv Hk. unfold nd in *.
       change (gv' x (n_term (nodes s' c)) = Some c) in Hg. change (valid s t k) in Hv. change (k <= ga s x t) in Hk.
-      assert (Hold : has s (n_log (nodes s' c)) t k \/ neverq c0 c1 s t k).
+      assert (Hold : has s (n_log (nodes s' c)) t k \/ neverq F s t k).
       { destruct (Nat.eq_dec c id) as [->|Hc].
         - rewrite Hid in *. apply (HK8a Hr x t k); assumption.
         - rewrite Hnd in * by exact Hc. destruct (Nat.eq_dec x id) as [->|Hx].
           + apply (HK8b c t k); assumption.
-          + rewrite Hother in Hg by exact Hx. apply (hK8 _ _ _ I c x t k); assumption. }
+          + rewrite Hother in Hg by exact Hx. apply (hK8 _ _ I c x t k); assumption. }
       destruct Hold as [H|H]; [left; exact H|right; apply Hneverq; exact H].
     - (* iK9 *) intros x. unfold nd.
-      destruct (Nat.eq_dec x id) as [->|Hx]; [rewrite Hid|rewrite Hnd by exact Hx; apply (hK9 _ _ _ I)].
+      destruct (Nat.eq_dec x id) as [->|Hx]; [rewrite Hid|rewrite Hnd by exact Hx; apply (hK9 _ _ I)].
       destruct Hcommit as [Ec|Hc]; [|exact Hc].
-      rewrite Ec, Hlog. destruct (hK9 _ _ _ I id) as [H1 H2]. unfold nd in H1, H2. fold n in H1, H2.
+      rewrite Ec, Hlog. destruct (hK9 _ _ I id) as [H1 H2]. unfold nd in H1, H2. fold n in H1, H2.
       split; [exact H1|]. destruct H2 as [H2|(t0 & k0 & Ht0 & Hc0 & Hk0 & Hf)]; [left; exact H2|].
       right. exists t0, k0. split; [lia|]. split; [exact Hc0|]. split; [exact Hk0|exact Hf].
-    - exact (hK10 _ _ _ I).
+    - exact (hK10 _ _ I).
     - (* iK11 *) intros l Hr. unfold nd in *. change (ga s l (n_term (nodes s' l)) = length (n_log (nodes s' l))).
       destruct (Nat.eq_dec l id) as [->|Hl].
       + rewrite Hid in *. destruct Hrole as [Hf|[[Hr' Ht']|[Hr' _]]]; [congruence| |congruence].
-        rewrite Ht', Hlog. apply (hK11 _ _ _ I id). unfold nd. fold n. congruence.
-      + rewrite Hnd in * by exact Hl. apply (hK11 _ _ _ I l Hr).
+        rewrite Ht', Hlog. apply (hK11 _ _ I id). unfold nd. fold n. congruence.
+      + rewrite Hnd in * by exact Hl. apply (hK11 _ _ I l Hr).
   Qed.
 
   (* the special case without new votes *)
   Lemma inv_gsame : forall s id n',
-    Inv c0 c1 s ->
+    Inv F s ->
     let n := nodes s id in
     n_term n <= n_term n' ->
     n_log n' = n_log n ->
@@ -254,9 +254,9 @@ Section Frame.
     (n_commit n' = n_commit n \/
      (n_commit n' <= length (n_log n') /\
       (n_commit n' = 0 \/
-       exists t0 k0, t0 <= n_term n' /\ committed_at c0 c1 s t0 k0 /\ n_commit n' <= k0 /\
+       exists t0 k0, t0 <= n_term n' /\ committed_at F s t0 k0 /\ n_commit n' <= k0 /\
          firstn (n_commit n') (n_log n') = firstn (n_commit n') (LL s t0)))) ->
-    Inv c0 c1 (set_node s id n').
+    Inv F (set_node s id n').
   Proof.
     intros s id n' I n Hterm Hlog Hvote Hrole Hvotes Hmatch Hcommit.
     change (set_node s id n') with (set_node_gv s id n' (gv s)).
@@ -264,13 +264,13 @@ Section Frame.
     - destruct Hrole as [H|H]; [left; exact H|right; left; exact H].
     - intros x t c H. exact H.
     - intros x t _. reflexivity.
-    - intros t Ht. apply (hA1 _ _ _ I). unfold nd. fold n. lia.
+    - intros t Ht. apply (hA1 _ _ I). unfold nd. fold n. lia.
     - destruct Hvote as [[Et Ev]|[Et Ev]].
-      + rewrite Et, Ev. apply (hA2 _ _ _ I).
-      + rewrite Ev. apply (hA1 _ _ _ I). exact Et.
+      + rewrite Et, Ev. apply (hA2 _ _ I).
+      + rewrite Ev. apply (hA1 _ _ I). exact Et.
     - intros t c H. left. exact H.
     - intros Hr x t k Hg Ht Hv Hk. destruct Hrole as [Hf|[Hr' Ht']]; [congruence|].
-      rewrite Hlog. apply (hK8 _ _ _ I id x t k); unfold nd; fold n; try assumption; try congruence; try lia.
-    - intros c t k Hc Hr Hg Ht Hv Hk. apply (hK8 _ _ _ I c id t k); assumption.
+      rewrite Hlog. apply (hK8 _ _ I id x t k); unfold nd; fold n; try assumption; try congruence; try lia.
+    - intros c t k Hc Hr Hg Ht Hv Hk. apply (hK8 _ _ I c id t k); assumption.
   Qed.
 End Frame.
